@@ -8,7 +8,9 @@
     what numeric_std (Vhdl/NumStd.v) yields for the operation the backend emits on signals holding the operand values;
 (c) end to end on the real compiler: the same design with the operands on input ports and with constant operands; the
     literal folded into the second must be the value the first computes (Vhdl.Sem) for those operand values.
-C09_MODEL=coded|fixed selects the rendering of the Python methods compared in (a) (default: coded = the pinned tree).
+The model has one switch per C09 defect of the round-0 tree (Ops.cfg); the default `current` is the CURRENT tree (rmul,
+sub width and exact truncdiv/rem fixed; mul by an out-of-range int as coded = the known finding
+{"op": "mul", "class": "int_factor_out_of_vector_range"}).  Development only: C09_MODEL=pinned|current|patched.
 """
 from __future__ import annotations
 import json
@@ -17,7 +19,7 @@ import re
 
 import common
 
-MODEL = {"coded": "Coded", "fixed": "Fixed"}[os.environ.get("C09_MODEL", "coded")]
+MODEL = {"pinned": "pinned", "current": "current", "patched": "patched"}[os.environ.get("C09_MODEL", "current")]
 
 BINOPS = ["add", "sub", "mul", "floordiv", "truncdiv", "mod", "rem", "lshift", "rshift", "and", "or", "xor", "concat",
           "eq", "ne", "lt", "le", "gt", "ge"]
@@ -410,6 +412,53 @@ def failure_class(r, h):
     return "value"
 
 
+def int_factor_class(c):
+    """mul of a Signed / Unsigned vector with an int that is not representable at the vector's width (either order)"""
+    op, a, b = c
+    if op != "mul" or b is None:
+        return False
+    for v, n in ((a, b), (b, a)):
+        if v[0] in ("u", "s") and n[0] in ("int", "py"):
+            w = v[1]
+            lo, hi = (0, (1 << w) - 1) if v[0] == "u" else (-(1 << (w - 1)), (1 << (w - 1)) - 1)
+            return not (lo <= n[1] <= hi)
+    return False
+
+
+INT_MIN, INT_MAX = -(1 << 31), (1 << 31) - 1
+
+
+def rt_error_kind(c):
+    """why the emitted run-time operation is an error although the fold gives a value"""
+    op, a, b = c
+    name = op if isinstance(op, str) else op[0]
+    ka, kb = a[0], (b[0] if b is not None else None)
+    num = ("int", "py")
+    if name in ("and", "or", "xor"):
+        if ka == "bit" or kb == "bit":
+            return "Bit and/or/xor Integer (duck typing through Integer._val; no such VHDL operator)"
+        return "and/or/xor on Integer (no such VHDL operator)"
+    if name in ("eq", "ne") and not (ka in num and kb in num) and not (ka == kb) and not (
+            (ka in num and kb in ("u", "s")) or (kb in num and ka in ("u", "s"))):
+        return "== / != of unrelated types (Python identity fallback: False / True)"
+    if name == "neg" and ka == "u":
+        return "unary minus on Unsigned (numeric_std defines none)"
+    if name in ("truncdiv", "mod", "rem") and ka == "int" and kb in num and b[1] == 0:
+        return "Integer truncdiv/mod/rem by 0 folds to 0"
+    ints = [d[1] for d in (a, b) if d is not None and d[0] in num]
+    if any(not (INT_MIN <= v <= INT_MAX) for v in ints):
+        return "int operand outside the 32-bit VHDL integer range"
+    if name in ("lshift", "rshift"):
+        return "shift count outside the natural range"
+    if (ka == "u" and kb in num and b[1] < 0) or (kb == "u" and ka in num and a[1] < 0):
+        return "negative int with Unsigned (NATURAL parameter of numeric_std)"
+    if ka in num and (kb in num or kb is None):
+        return "Integer result outside the 32-bit VHDL integer range"
+    if name in ("to_int", "ctor"):
+        return "%s outside the integer / natural range" % name
+    return "other: %s %s %s" % (name, ka, kb)
+
+
 def size_of(c):
     op, a, b = c
     n = 0
@@ -495,10 +544,9 @@ def run(ck: common.Check, replay=None):
             ck.hist("folded_by_operator", k[0])
             ck.nontrivial([c[0], c[1][:2] if c[1][0] in ("u", "s", "bv") else c[1][0],
                            (c[2][:2] if c[2][0] in ("u", "s", "bv") else c[2][0]) if c[2] else None, min(size_of(c), 50)])
-            if i not in bad["rtdef"]:
-                pass
-            else:
-                ck.hist("fold_defined_runtime_error", "%s %s %s" % k)
+            if i in bad["rtdef"]:
+                ck.hist("fold_defined_runtime_error", rt_error_kind(c))
+                ck.hist("fold_defined_runtime_error_by_operator", "%s %s %s" % k)
         if i in (0, 6, 12) or (i % 9973 == 0 and r[0] == "v"):
             ck.sample({"case": c, "python": r})
     ck.cov["cases"] = len(cases)
@@ -513,7 +561,10 @@ def run(ck: common.Check, replay=None):
     groups = {}
     for i in sorted(bad["spec"] | bad["type"]):
         c = cases[i]
-        groups.setdefault(kinds(c), []).append(i)
+        if i in bad["spec"] and int_factor_class(c):
+            groups.setdefault(("mul", "*", "int_factor_out_of_vector_range"), []).append(i)
+        else:
+            groups.setdefault(kinds(c), []).append(i)
     reps = {k: min(v, key=lambda i: (size_of(cases[i]), i)) for k, v in groups.items()}
     if reps:
         order = sorted(reps)
@@ -524,6 +575,15 @@ def run(ck: common.Check, replay=None):
             h = parse_rt(o)
             cls = failure_class(r, h) if i in bad["spec"] else "documented type"
             key = {"op": k[0], "lhs": k[1], "rhs": k[2], "class": cls}
+            if k[2] == "int_factor_out_of_vector_range":
+                # one key for the whole input class: Unsigned / Signed vector times an int that is not representable at the
+                # vector's width, either operand order (numeric_std converts the int to that width first)
+                key = {"op": "mul", "class": "int_factor_out_of_vector_range"}
+                by = {}
+                for j in groups[k]:
+                    kk = "%s * %s" % (cases[j][1][0], cases[j][2][0])
+                    by[kk] = by.get(kk, 0) + 1
+                ck.cov["int_factor_out_of_vector_range"] = by
             ck.violation(key, "constant folding gives %s but the emitted logic computes %s for %s (%d failing cases of this "
                          "operator / operand-type class)" % (r[1:], h[1:], one_liner(c).split("r = ")[1].split(";")[0],
                                                             len(groups[k])),
@@ -548,6 +608,8 @@ def run(ck: common.Check, replay=None):
                          {"case": c, "python_result": r, "model": o, "python": one_liner(c)}, no_input=True)
     if replay is None or replay.get("e2e"):
         run_e2e(ck, 60 if quick else 400)
+    if replay is None:
+        probe_kinds(ck)
     for i in unmodelled[:5]:
         ck.violation({"op": kinds(cases[i])[0], "lhs": kinds(cases[i])[1], "rhs": kinds(cases[i])[2], "class": "malformed result"},
                      "the operation returned an object that is neither two-valued nor uninitialised: %s" % results[i],
@@ -595,6 +657,8 @@ def vhdl_val(d):
         return "(VV KSgn %d %d)" % (d[1], d[2] % (1 << d[1]))
     if k == "bv":
         return "(VV KSlv %d %d)" % (d[1], d[2])
+    if k == "py":
+        return "(VL false)"       # unused port of the int-literal variants
     return "(VL %s)" % ("true" if d[1] else "false")
 
 
@@ -610,6 +674,13 @@ def e2e_cases(rng, n):
         if op in ("lt", "ge") and kind == "bv":
             continue
         a = [kind, wa, vec_value(rng, kind, wa)]
+        if op == "mul" and rng.random() < 0.6:
+            # vector * int literal (the literal stays a literal in both variants), half of them outside the vector's range
+            lo, hi = (0, (1 << wa) - 1) if kind == "u" else (-(1 << (wa - 1)), (1 << (wa - 1)) - 1)
+            lit = rng.randint(lo, hi) if rng.random() < 0.5 else rng.choice([hi + 1, hi + 2, 2 * hi + 3, lo - 1 if kind == "s" else hi + 7])
+            c = ["mul", a, ["py", lit]]
+            out.append(c if rng.random() < 0.5 else ["mul", ["py", lit], a])
+            continue
         kb = "u" if op in ("lshift", "rshift") else kind
         if op in ("lshift", "rshift"):
             wb = rng.choice([1, 2, 3])
@@ -630,9 +701,12 @@ def run_e2e(ck, n):
             ck.hist("e2e", "fold not a value: " + r[0])
             continue
         tr = ty_src(r[1], r[2])
-        ta, tb = ty_src(a[0], a[1]), ty_src(b[0], b[1])
+        ta = ty_src(a[0], a[1]) if a[0] != "py" else "Bit"
+        tb = ty_src(b[0], b[1]) if b[0] != "py" else "Bit"
         designs.append({"name": "c09_p%d" % i, "entity": "W",
-                        "source": E2E_SRC.format(ta=ta, tb=tb, tr=tr, expr=expr_src(op, "self.a", "self.b"))})
+                        "source": E2E_SRC.format(ta=ta, tb=tb, tr=tr,
+                                                 expr=expr_src(op, "self.a" if a[0] != "py" else py_expr(a),
+                                                               "self.b" if b[0] != "py" else py_expr(b)))})
         designs.append({"name": "c09_k%d" % i, "entity": "W",
                         "source": E2E_SRC.format(ta=ta, tb=tb, tr=tr, expr=expr_src(op, py_expr(a), py_expr(b)))})
         meta.append((c, r))
@@ -674,10 +748,68 @@ def run_e2e(ck, n):
         ck.hist("e2e", "agree" if same else "differ")
         ck.nontrivial(["e2e", c[0], c[1][:2], c[2][:2]])
         if not same:
-            ck.violation({"op": c[0], "lhs": c[1][0], "rhs": c[2][0], "class": "e2e"},
+            key = {"op": c[0], "lhs": c[1][0], "rhs": c[2][0], "class": "e2e"}
+            if int_factor_class(c):
+                key = {"op": "mul", "class": "int_factor_out_of_vector_range", "stage": "e2e"}
+                ck.count("e2e_int_factor_out_of_vector_range")
+                if ck.cov["e2e_int_factor_out_of_vector_range"] > 1:
+                    continue      # one report for the input class
+            ck.violation(key,
                          "design with constant operands and design with the operands on input ports produce different "
                          "outputs for %s: (ports, constants) = %s" % (one_liner(c).split("r = ")[1].split(";")[0], o[:300]),
                          {"case": c, "folded": r, "outputs_ports_constants": o,
                           "source_ports": designs[2 * j]["source"], "source_constants": designs[2 * j + 1]["source"],
                           "python": one_liner(c)})
     ck.cov["e2e_designs"] = len(designs)
+
+
+# ----------------------------------------------------------------------------
+# folds that are defined although the emitted run-time operation is an error: does the compiler accept the run-time design?
+# (recorded in the evidence only: the emitted text is property C02 / C06's)
+# ----------------------------------------------------------------------------
+
+PROBE_SRC = """import cohdl
+from cohdl import Bit, Port, Unsigned, Signed, BitVector, Integer, Signal, op
+from cohdl import std
+
+class W(cohdl.Entity):
+    clk = Port.input(Bit)
+    a = Port.input(Unsigned[4])
+    s = Port.input(Signed[4])
+    b = Port.input(Bit)
+    o = Port.output({to})
+
+    def architecture(self):
+        @std.concurrent
+        def logic():
+            i = Signal[Integer](5)
+            self.o <<= {expr}
+"""
+
+PROBES = [
+    ("unary minus on Unsigned (numeric_std defines none)", "Unsigned[4]", "-self.a"),
+    ("negative int with Unsigned (NATURAL parameter of numeric_std)", "Unsigned[4]", "self.a + (-1)"),
+    ("negative int with Unsigned (NATURAL parameter of numeric_std) [compare]", "Bit", "self.a < -1"),
+    ("and/or/xor on Integer (no such VHDL operator)", "Bit", "(i | 3) == 7"),
+    ("Bit and/or/xor Integer (duck typing through Integer._val; no such VHDL operator)", "Bit", "self.b & i"),
+    ("Integer truncdiv/mod/rem by 0 folds to 0", "Bit", "(i % 0) == 0"),
+    ("int operand outside the 32-bit VHDL integer range", "Bit", "(i + 2**31) == 7"),
+    ("== / != of unrelated types (Python identity fallback: False / True)", "Bit", "self.a == self.s"),
+    ("== / != of unrelated types (Python identity fallback: False / True) [Bit, Unsigned]", "Bit", "self.b != self.a"),
+    ("int factor outside the vector range (known finding of C09)", "Unsigned[8]", "self.a * 17"),
+]
+
+
+def probe_kinds(ck):
+    import explore as X
+    designs = [{"name": "c09_probe%d" % i, "entity": "W", "source": PROBE_SRC.format(to=to, expr=e)}
+               for i, (_, to, e) in enumerate(PROBES)]
+    res = X.compile_designs(ck, designs)
+    out = {}
+    for (kind, _, e), r in zip(PROBES, res):
+        if r["ok"]:
+            lines = [ln.strip() for ln in r["vhdl"].split("\n") if re.search(r"temp\w* <= ", ln)]
+            out[kind] = {"design": "o <<= " + e, "compiler": "accepted", "emitted": lines[:2]}
+        else:
+            out[kind] = {"design": "o <<= " + e, "compiler": "rejected", "error": r["error"][:160]}
+    ck.cov["fold_defined_runtime_error_compiler"] = out
